@@ -60,7 +60,19 @@ def observe(case, with_meta=False):
         t = TestChi2(ref, *others, name='c07', alpha=alpha, ignore_empty=bool(case['ign']))
         return t, t.evaluate()
     try:
-        t, res = test(dataset(case['ref']), [dataset(o) for o in case['oth']])
+        prev = case.get('after')
+        if prev and shape != ():
+            # the same Dataset objects served another comparison before: their arrays are then overwritten in place with
+            # the numbers of this case and a new test is built on them (a test object fixes its bins when it is built)
+            objs = [dataset(prev['ref'])] + [dataset(o) for o in prev['oth']]
+            test(objs[0], objs[1:])
+            for obj, cells in zip(objs, [case['ref']] + list(case['oth'])):
+                fresh = dataset(cells)
+                obj.value[...] = fresh.value
+                obj.error[...] = fresh.error
+            t, res = test(objs[0], objs[1:])
+        else:
+            t, res = test(dataset(case['ref']), [dataset(o) for o in case['oth']])
         verdict = bool(res)
         raw = dict(chi2=res.chi2, pval=res.pvalue, ndf=res.test.ndf, nzb=res.test.nonzero_bins)
     except Exception as ex:  # pylint: disable=broad-except
@@ -120,6 +132,8 @@ def stat_class(stat):
 def vkey(what, case, detail=''):
     opt = 'ignore-empty-on' if case['ign'] else 'ignore-empty-off'
     form = 'scalar' if not case['shape'] else 'array'
+    if case.get('after'):
+        form += '/objects-reused'
     if what == 'raises':
         return 'C07/raises/%s/%s' % (opt, form)
     return 'C07/%s/%s/%s%s' % (what, opt, form, '/' + detail if detail else '')
@@ -165,6 +179,7 @@ def _seen(obs):
 
 def _replay_blocks(blocks):
     res = dict(n=0, evals=0, bad=[], skipped=0, free=0, distinct=set(), samples=[])
+    last = {}          # (bins, datasets) -> numbers of earlier states of that form
     for blk in blocks:
         st = parse_state(blk)
         out = _plain(st['out'])
@@ -179,11 +194,24 @@ def _replay_blocks(blocks):
         multi = [sh for sh in shapes_for(nb) if len(sh) >= 2 and int(np.prod(sh)) > 1]
         if multi:
             variants.append((multi[-1], 'float-T'))            # the same arrays as transposed (non-contiguous) views
+        form = (nb, len(st['oth']))
+        if last.get(form) and shapes_for(nb)[-1]:
+            variants.append((shapes_for(nb)[-1], 'float-after'))   # on the objects that served an earlier state
         for k, (shape, dtype) in enumerate(variants):
             layout = 'C'
+            after = None
             if dtype == 'float-T':
                 dtype, layout = 'float', 'T'
+            elif dtype == 'float-after':
+                dtype = 'float'
+                cur = case_of_state(st, shape, dtype)
+                pool = [p for p in last[form] if p['ref'] != cur['ref'] or p['oth'] != cur['oth']]
+                if not pool:
+                    continue
+                after = pool[(res['n'] * 7919) % len(pool)]
             case = case_of_state(st, shape, dtype)
+            if after:
+                case['after'] = after
             if layout != 'C':
                 case['layout'] = layout
             conf_student.LAYOUT[0] = layout
@@ -202,6 +230,12 @@ def _replay_blocks(blocks):
             for what, d, i, exp, detail in bad:
                 res['bad'].append((vkey(what, case, detail),
                                    '%s: Chi2.tla expects %s at dataset %d bin %d; %s' % (what, exp, d, i, _seen(obs)), case))
+            if k == 0:
+                nums = dict(ref=case['ref'], oth=case['oth'])
+                pool = last.setdefault(form, [])
+                if nums not in pool[-3:]:
+                    pool.append(nums)
+                    del pool[:-40]
             if k == 0 and not res['samples'] and res['n'] % 97 == 1:
                 res['samples'].append(dict(case=case, expected=dict(verdict=out['verdict'], ndf=out['ndf'], stat=out['stat']),
                                            observed=dict(verdict=obs['verdict'], chi2=obs['chi2_float'], ndf=obs['ndf'])))
